@@ -2,8 +2,8 @@
 
 1. TLC decides the property section of spec/Collect.tla (safety + NoLeak under
    fairness) for every scenario with <= 3 (quick) / <= 4 (thorough) clocks.
-2. TLC (Collect_gen.cfg) prints every reachable final outcome of every scenario
-   with <= 4 clocks; grouped by scenario this is the scenario list replayed on
+2. TLC (Emit; Collect_gen.cfg in the thorough tier) prints every reachable final
+   outcome of every scenario; grouped by scenario this is the scenario list replayed on
    the real code and, per scenario, the SET of outcomes the code may show.
 3. harness/c16 runs the real MeasureClockOffsets in synctest bubbles.
 4. CollectTrace.tla: monitor = Collect's property section on the recorded final
@@ -46,14 +46,18 @@ def scen_class(r):
 def run(ctx):
     q = ctx.quick
     # ---- 1. design level
+    # quick: one run decides the clauses for <= 3 clocks AND prints the final outcomes (Emit is part of
+    # Collect_exh.cfg); thorough: <= 4 clocks, the generator is a separate single-worker run
     r = ctx.tlc("CollectMC", "Collect_exh.cfg" if q else "Collect_deep.cfg", timeout=900, coverage=q,
-                workers=4 if q else 8)
-    ctx.log("TLC %s: %d distinct states, safety clauses + NoLeak hold" % ("n<=3" if q else "n<=4", r["distinct"]))
+                workers=1 if q else 8)
+    maxn = 3 if q else 4
+    ctx.log("TLC n<=%d: %d distinct states, safety clauses + NoLeak hold" % (maxn, r["distinct"]))
     if q:
         cov = dict(re.findall(r"^<(\w+) line [^>]*of module Collect[^>]*>: (\d+):\d+", r["out"], re.M))
         dead = [a for a in ACTIONS if int(cov.get(a, 0)) == 0]
         if dead:
             raise vlib.Inconclusive("Collect.tla: actions never taken in %s: %s" % (r["cfg"], dead))
+        g = r
     else:
         for f, clause in FAULTS.items():
             fr = ctx.tlc("CollectMC", "Collect_f_%s.cfg" % f, timeout=300, allow_violation=True, tag="fault:" + f)
@@ -61,9 +65,8 @@ def run(ctx):
                 raise vlib.Inconclusive("spec self-test: deviation %s should violate %s, TLC says %s"
                                         % (f, clause, fr["violated"]))
         ctx.log("spec self-test: %d single-site deviations of Collect.tla each refuted by TLC" % len(FAULTS))
-
-    # ---- 2. scenarios and their allowed outcome sets, from TLC
-    g = ctx.tlc("CollectMC", "Collect_gen.cfg", workers=1, timeout=900, tag="gen")
+        # ---- 2. scenarios and their allowed outcome sets, from TLC
+        g = ctx.tlc("CollectMC", "Collect_gen.cfg", workers=1, timeout=900, tag="gen")
     outs = ctx.emitted(g["out"])
     by = collections.defaultdict(dict)
     scen = {}
@@ -72,7 +75,7 @@ def run(ctx):
         scen[ix] = dict(id=ix, n=o["n"], d=o["d"], o=o["o"])
         by[ix][okey(o["rt"], o["prefix"], o["phase"], o["refused"])] = dict(
             rt=o["rt"], j=o["j"], prefix=sorted(o["prefix"]), phase=o["phase"], refused=o["refused"])
-    if sorted(scen) != list(range(1, len(scen) + 1)) or len(scen) != sum(7 ** m for m in range(5)):
+    if sorted(scen) != list(range(1, len(scen) + 1)) or len(scen) != sum(7 ** m for m in range(maxn + 1)):
         raise vlib.Inconclusive("generator did not cover all scenarios: %d" % len(scen))
     cases = [scen[ix] for ix in sorted(scen)]
     cp = ctx.path("cases.ndjson")
@@ -87,7 +90,7 @@ def run(ctx):
     trace = ctx.path("trace.ndjson")
     rc, out = ctx.gotest("c16", "TestC16", env=dict(VERIF_IN=cp, VERIF_OUT=trace), timeout=1500)
     recs = vlib.read_ndjson(trace) if os.path.exists(trace) else []
-    if rc == 3 and recs and recs[-1].get("hung"):
+    if rc != 0 and "exit status 3" in out and recs and recs[-1].get("hung"):
         # the driver gave up on a round that never came back; that round is the observation
         ctx.log("driver stopped at a round that did not return: %s" % recs[-1]["note"])
     elif rc != 0 or not recs:
@@ -163,14 +166,14 @@ def run(ctx):
             "more than one (rt, prefix) outcome; %d observations outside the allowed sets"
             % (nseen, nreach, full, multi, outside))
     nontrivial = len({(x["id"], x["phase"], x["rt"], tuple(x["ms"])) for x in recs if x["n"] >= 1})
-    pick = [x for x in recs if x["n"] == 4 and 4 in x["d"] and 2 in x["d"] and x["phase"] == "during"][:2]
+    pick = [x for x in recs if x["n"] == maxn and 4 in x["d"] and 2 in x["d"] and x["phase"] == "during"][:2]
     ctx.cov.update(
         evaluations=runs, distinct_nontrivial=nontrivial,
-        rule="every scenario with 0..4 clocks (per clock: result ready before/at/after the deadline with value or error, "
+        rule="every scenario with 0..%d clocks (per clock: result ready before/at/after the deadline with value or error, "
              "or blocked until cancellation) enumerated by TLC from Collect.tla, each run %s times on the real "
              "MeasureClockOffsets under synctest with seeded scheduler perturbation and a second call during/after/never; "
              "distinct_nontrivial = distinct (scenario, phase, return time, result slice) with at least one clock"
-             % ("20" if q else "500"),
+             % (maxn, "60" if q else "500"),
         traces_validated_against_impl=nval, exhaustive=True,
         scenarios=len(cases), allowed_pairs=nreach, allowed_pairs_observed=nseen,
         scenarios_fully_covered=full, scenarios_with_scheduler_dependent_outcome=multi,
@@ -179,7 +182,7 @@ def run(ctx):
     ctx.assumptions += [
         "virtual time of testing/synctest = the maximal-progress time of Collect.tla (time advances only when every "
         "goroutine of the bubble is durably blocked)",
-        "small scope: <= 4 reference clocks; completion times abstracted to before/at/after the deadline/never",
+        "small scope: <= 3 (quick) / <= 4 (thorough) reference clocks; completion times abstracted to before/at/after the deadline/never",
         "scripted clocks return by 3 units or at ctx.Done; the caller cancels after return as sync.measureOffsetToRefClks does",
         "goroutines left behind are detected by stack inspection (frames of core/client in the bubble) and, independently, "
         "by synctest's bubble-exit check",
